@@ -45,7 +45,11 @@ def cases(ctx):
         allv = np.concatenate([np.asarray(pos, float), np.asarray(neg, float)])
         thr = gen.thresholds(rng, allv)
         shp = gen.shape(rng)
-        mode = str(rng.choice(["vec", "vec", "shape", "scalar", "list"]))
+        mode = str(rng.choice(["vec", "vec", "shape", "scalar", "list", "longvec"]))
+        if mode == "longvec":  # a long 1-d vector in arbitrary order with repeats; ascending / descending variants too
+            thr = rng.choice(thr, int(rng.integers(1000, 3000)))
+            o = int(rng.integers(0, 3))
+            thr = thr if o == 0 else np.sort(thr) if o == 1 else np.sort(thr)[::-1].copy()
         if mode == "shape":
             size = int(np.prod(shp)) if shp else 1
             thr = rng.choice(thr, size).reshape(shp) if size else np.zeros(shp)
@@ -56,7 +60,7 @@ def cases(ctx):
         yield {
             "pos": pos, "neg": neg, "ep": ep, "en": en, "sc": sc, "ec": ec, "thr": thr, "kind": kind,
             "via": str(rng.choice(["ctor", "ctor", "from_labels", "swap2", "sorted", "boot_replacement", "boot_smoothing", "boot_single_pass", "boot_proportion",
-                                   "boot_by_label", "group_item", "sample_swap"])),
+                                   "boot_by_label", "group_item", "sample_swap", "replaced", "replaced"])),
             "_seed": int(rng.integers(1 << 31)),
             "pos_form": str(rng.choice(gen.FORMS)), "neg_form": str(rng.choice(gen.FORMS)), "thr_form": str(rng.choice(gen.FORMS)),
         }
@@ -108,6 +112,14 @@ def execute(ctx, case):
         s = Scores(np.sort(np.asarray(pos)), np.sort(np.asarray(neg)), is_sorted=True, **kw)
     else:
         s = Scores(pos, neg, **kw)
+    if via == "replaced":
+        # a history on one object: it answered queries about other scores (other class sizes) before its score arrays were
+        # replaced through the public attributes (what the FraudScores genuines/frauds setters do); sorted, as the class keeps them
+        rs = np.random.default_rng(case.get("_seed", 0))
+        s = Scores(rs.normal(0, 1, int(rs.integers(0, 9))), rs.normal(0, 1, int(rs.integers(0, 9))), **kw)
+        s.cm(np.asarray(thr, dtype=float))
+        s.tpr(0.0), s.fpr(0.0), s.nb_hard_pos, s.nb_all_neg, s.hard_pos_ratio
+        s.pos, s.neg = np.sort(np.asarray(pos)), np.sort(np.asarray(neg))
     if via == "swap2":
         s = s.swap().swap()  # library-made is_sorted=True objects; must be the same object semantically
     # objects the library derives itself (often with is_sorted=True): the decision-rule counting must hold on them too;
